@@ -129,6 +129,15 @@ let gen seed n =
                                   let m = if rint r 4 = 0 then ZA.to_int (rbits r 16) else pick r kinds lor (rint r 256) in
                                   (m, if m land 1 = 1 && rint r 4 = 0 then -1
                                       else if rint r 5 = 0 then (1000 * k + !ctr) lor 0x20000000 else 1000 * k + !ctr))) in
-    run ~tag:"mixed_versions" r pages
+    run ~tag:"mixed_versions" r pages;
+    (* a page filled to the last byte (pd_lower = pd_upper = 928): 226 line pointers, four 40-byte and 222 32-byte tuple images;
+       it holds live, deleted and aborted versions like any other page (seeded change C09-17: such a page was judged invalid) *)
+    if k mod 25 = 7 then begin
+      let full = shuffle r (List.init 226 (fun i ->
+          let m = pick r kinds lor (rint r 256) in
+          ((if i < 4 then m land (lnot 1) else m lor 1), 1000000 + 1000 * k + i))) in
+      let other = List.init (rint r 4) (fun i -> (pick r kinds, 2000000 + 1000 * k + i)) in
+      run ~tag:"full_page" r (if rbool r then [ full; other ] else [ other; full ])
+    end
   done
 let () = main gen
